@@ -140,6 +140,9 @@ def run(tier):
                     rep.violation("c13:mismatch:after-%s" % e[3], "[%s] history %s: object %s changed after op #%s (%s): recorded %s now %s" % (
                         flavor, c["id"], e[1], e[2], e[3], json.dumps(e[4])[:200], json.dumps(e[5])[:200]), {"flavor": flavor, "case": c, "opts": opts})
                     break
+                if e[0] == "panic" and common.is_oom_text(e[1]):
+                    rep.inconc("allocation failure", c["id"])
+                    break
                 if e[0] == "panic":
                     rep.violation("c13:panic:" + e[1][:80], "[%s] panic in history %s: %s" % (flavor, c["id"], e[1]), {"flavor": flavor, "case": c, "opts": opts})
                     break
